@@ -624,7 +624,12 @@ class Sandbox:
         """ Turn off any patches, store output """
         self._stop_patches()
         current_stdout = self._current_stdout.pop()
-        self.append_output(current_stdout.getvalue(), context)
+        try:
+            captured = current_stdout.getvalue()
+        except ValueError:
+            # The student's code closed the stream it was printing to
+            captured = ""
+        self.append_output(captured, context)
 
     # Patching Functionality
     def _start_patches(self, *patches):
